@@ -22,7 +22,7 @@ def check_one(desc, acc):
     E = [(tuple(sorted(s)), tuple(sorted(t))) for s, t in desc["edges"]]
     base = dict(desc=C.show(desc))
     size = len(E)
-    for detour in (False, True):
+    for detour in (False, True, 2):
         h = C.build(desc, detour=detour)
         w = dict(base, detour=detour)
 
